@@ -138,9 +138,22 @@ def generate():
         raise ExtractError("EPollPoller::updateChannel: no else branch")
     inner_new = _only([i for i in _ifs_in(othen) if mentions(if_cond(i), "kNew")], "`if (index == kNew)`")
     guard("epIsNew", [IDX], symi, if_cond(inner_new), "`EPollPoller::updateChannel`: a new channel enters `channels_`", ke)
-    _, del_branch = _then_else(inner_new)
+    new_branch, del_branch = _then_else(inner_new)
     if del_branch is None:
         raise ExtractError("EPollPoller::updateChannel: no branch for the deleted slot")
+    # a new channel without interest: recorded in channels_, not handed to the kernel (early return)
+    nskips = [i for i in _ifs_in(new_branch) if mentions(if_cond(i), "isNoneEvent") and _has_return(_then_else(i)[0])]
+    nsk = _only(nskips, "early return for an interest-less *new* channel")
+    guard("epNewSkips", [EV], symi, if_cond(nsk),
+          "`EPollPoller::updateChannel`: a *new* channel without interest enters `channels_` only (early return, no `epoll_ctl`)", ke)
+    if _calls(_then_else(nsk)[0], "update"):
+        raise ExtractError("EPollPoller::updateChannel: the interest-less *new* branch calls update()")
+    stmts_new = kids(new_branch)
+    pos_skip = [k for k, s_ in enumerate(stmts_new) if nsk in list(walk(s_))]
+    pos_map = [k for k, s_ in enumerate(stmts_new) if s_.get("kind") in ("CXXOperatorCallExpr", "BinaryOperator", "ExprWithCleanups")
+               and mentions(s_, "channels_") and mentions(s_, "channel")]
+    if not pos_skip or not pos_map or min(pos_map) > pos_skip[0]:
+        raise ExtractError("EPollPoller::updateChannel: `channels_[fd] = channel` no longer precedes the interest-less early return")
     skips = [i for i in _ifs_in(del_branch) if mentions(if_cond(i), "isNoneEvent") and _has_return(_then_else(i)[0])]
     sk = _only(skips, "early return for an interest-less *deleted* channel")
     guard("epDeletedSkips", [EV], symi, if_cond(sk),
@@ -150,14 +163,19 @@ def generate():
         c = _only(_calls(node, "update"), "call of update() in " + what)
         return unparen(Tr({}).expr(kids(c)[1]))
 
-    def setidx_arg(node, what, obj="channel"):
+    def setidx_arg(node, what, obj="channel", exclude=None):
+        inside = list(walk(exclude)) if exclude is not None else []
         cs = [c for c in _calls(node, "set_index")
-              if strip(kids(strip(kids(c)[0]))[0]).get("referencedDecl", {}).get("name") == obj]
+              if strip(kids(strip(kids(c)[0]))[0]).get("referencedDecl", {}).get("name") == obj
+              and not any(c is x for x in inside)]
         c = _only(cs, "call of %s->set_index() in %s" % (obj, what))
         return unparen(Tr({}, ke).expr(kids(c)[1]))
 
+    out.append("/-- `EPollPoller::updateChannel`: slot state of a *new* channel registered without interest -/\n"
+               "def epIndexAfterNewSkip : Int := %s\n" % setidx_arg(_then_else(nsk)[0], "the interest-less new branch"))
     out.append("/-- `EPollPoller::updateChannel`, add branch: the `epoll_ctl` operation and the new slot state -/\n"
-               "def epCtlAdd : Nat := %s\ndef epIndexAfterAdd : Int := %s\n" % (ctl_arg(othen, "the add branch"), setidx_arg(othen, "the add branch")))
+               "def epCtlAdd : Nat := %s\ndef epIndexAfterAdd : Int := %s\n"
+               % (ctl_arg(othen, "the add branch"), setidx_arg(othen, "the add branch", exclude=nsk)))
     ex = _only([i for i in _ifs_in(oelse) if mentions(if_cond(i), "isNoneEvent")], "`if (channel->isNoneEvent())` of the existing branch")
     guard("epExistingDeletes", [EV], symi, if_cond(ex), "`EPollPoller::updateChannel`: an *added* channel lost its last interest", ke)
     ethen, eelse = _then_else(ex)
@@ -204,6 +222,9 @@ def generate():
     nthen, nelse = _then_else(n_)
     if nelse is None:
         raise ExtractError("PollPoller::updateChannel: no existing-entry branch")
+    nig = _only([i for i in _ifs_in(nthen) if mentions(if_cond(i), "isNoneEvent")],
+                "`if (channel->isNoneEvent())` in the new-entry branch of PollPoller::updateChannel")
+    guard("pollNewIgnores", [EV], symp, if_cond(nig), "`PollPoller::updateChannel`: a new entry without interest is pushed as an ignored one")
     ig = _only([i for i in _ifs_in(nelse) if mentions(if_cond(i), "isNoneEvent")], "`if (channel->isNoneEvent())` in PollPoller::updateChannel")
     guard("pollUpdateIgnores", [EV], symp, if_cond(ig), "`PollPoller::updateChannel`: no interest, make poll(2) ignore the entry")
 
@@ -217,6 +238,24 @@ def generate():
     b = _only(plain, "assignment pfd.fd = channel->fd() in the existing branch")
     if unparen(Tr(symp).expr(kids(b)[1])) != "fd":
         raise ExtractError("PollPoller::updateChannel: pfd.fd is no longer set to channel->fd()")
+    # the new-entry branch: pfd.fd = channel->fd(); the ignored form when there is no interest; then push_back; channels_ keyed by channel->fd()
+    na = _only(assigns(_then_else(nig)[0], lambda l: l.get("kind") == "MemberExpr" and l.get("name") == "fd"),
+               "assignment to pfd.fd for a new ignored entry")
+    fun("pollNewIgnoreFd", [("fd", "Int")], "Int", symp, kids(na)[1], "`PollPoller::updateChannel`: the `fd` field of a new ignored entry")
+    nplain = [x for x in assigns(nthen, lambda l: l.get("kind") == "MemberExpr" and l.get("name") == "fd") if x is not na]
+    nb = _only(nplain, "assignment pfd.fd = channel->fd() in the new-entry branch")
+    if unparen(Tr(symp).expr(kids(nb)[1])) != "fd":
+        raise ExtractError("PollPoller::updateChannel: a new pfd.fd is no longer set to channel->fd()")
+    nst = kids(nthen)
+    where = lambda node: [k for k, s_ in enumerate(nst) if any(node is x for x in walk(s_))]
+    pb = _only(_calls(nthen, "push_back"), "pollfds_.push_back in the new-entry branch")
+    if not (where(nb)[0] < where(nig)[0] < where(pb)[0]):
+        raise ExtractError("PollPoller::updateChannel: order `pfd.fd = fd; if (isNoneEvent) ...; push_back` changed")
+    keyed = [n for n in walk(nthen) if n.get("kind") == "CXXOperatorCallExpr" and mentions(n, "channels_")
+             and len(kids(n)) == 3 and not mentions(kids(n)[2], "channels_") and strip(kids(n)[1]).get("kind") != "CXXOperatorCallExpr"]
+    kx = _only(keyed, "channels_[...] in the new-entry branch")
+    if unparen(Tr(symp).expr(kids(kx)[2])) != "fd":
+        raise ExtractError("PollPoller::updateChannel: channels_ is no longer keyed by channel->fd() for a new entry")
     pr = the_function(qdocs, "removeChannel")
     l_ = _only([i for i in find_ifs(pr) if mentions(if_cond(i), "idx") and mentions(if_cond(i), "pollfds_")], "last-entry test in removeChannel")
     guard("pollRemoveIsLast", [("idx", "Nat"), ("size", "Nat")], symp, if_cond(l_), "`PollPoller::removeChannel`: the entry is the last one (plain pop)")
